@@ -3,16 +3,17 @@
 set -u
 M=$1; shift
 ID=${M:0:3}; V=${M:3:1}
-P=/verif/seeded/$M/patch.diff
-[ -f "$P" ] || P=/tmp/wt/out/$ID/$V/patch.diff
-cd /repo
+VROOT=$(cd "$(dirname "$0")/.." && pwd)
+REPO=${VERIF_REPO:-/repo}
+P=$VROOT/seeded/$M/patch.diff
+cd $REPO
 if ! git apply "$P" 2>/dev/null; then
   if ! git apply -3 "$P" 2>/dev/null; then echo "$M: patch does not apply"; git reset -q --hard HEAD; exit 3; fi
   git reset -q   # -3 stages the result
 fi
 RES=""
 for c in "$@"; do
-  out=$(cd /verif && ./check $c 2>&1)
+  out=$(cd $VROOT && ./check $c 2>&1)
   if echo "$out" | grep -q "^VIOLATION"; then
     n=$(echo "$out" | grep -c "^VIOLATION")
     nf=$(echo "$out" | grep "^VIOLATION" | grep -c "no-failing-input-found")
@@ -21,6 +22,6 @@ for c in "$@"; do
     RES="$RES $c:missed"
   fi
 done
-git -C /repo checkout -- .
-git -C /repo clean -fdq -e '*.go' 2>/dev/null
+git -C $REPO checkout -- .
+git -C $REPO clean -fdq -e '*.go' 2>/dev/null
 echo "$M:$RES"
